@@ -598,6 +598,17 @@ func (r *sRun) teardown() {
 	}
 	r.w.mu.Unlock()
 	synctest.Wait()
+	// C14: the tunnel has ended and every handler has been told to return: nothing may be left
+	g := census()
+	tbl := ""
+	if ids, _, ok := grpctunnel.VerifServerState(r.end); ok {
+		var a []string
+		for _, id := range ids {
+			a = append(a, strconv.FormatInt(id, 10))
+		}
+		tbl = strings.Join(a, ",")
+	}
+	r.ops.add("s.teardown", fmt.Sprintf("left=%d,%d,%d table=[%s]", g.handlers, g.swatchers, g.strans, tbl))
 	grpctunnel.VerifForgetServer(r.end)
 }
 
